@@ -461,7 +461,50 @@ def _ops():
             return r
         s.action.execute = closing
 
+    def bounded_prep(s):
+        # the receiver as `BoboReceiver(max_size=3)` builds it; a run one event away from completion; the last event queued
+        from queue import Queue
+        r = s.engine.receiver
+        s.feed(1)
+        s.engine.update()
+        s.feed(2)
+        s.engine.update()
+        r._max_size = 3
+        q = Queue(3)
+        while not r._queue.empty():
+            q.put(r._queue.get_nowait())
+        r._queue = q
+        s.feed(3)
+
+    def fill(s):
+        from bobocep.cep.engine.receiver.receiver import BoboReceiverError
+        try:
+            while True:
+                s.engine.receiver.add_data(7)      # what feeder threads do between two steps of the engine
+        except BoboReceiverError:
+            pass
+
+    def feedback_full(at):
+        def op(s, p):
+            from bobocep import BoboError
+            e = s.engine
+            with e._lock:                           # the body of BoboEngine.update(), with the feeders filling the bounded queue
+                e.receiver.update()
+                if at == 'producer':
+                    fill(s)
+                e.decider.update()
+                for task in (e.producer, e.forwarder):
+                    if at == 'forwarder' and task is e.forwarder:
+                        fill(s)
+                    try:
+                        task.update()
+                    except BoboError:
+                        pass                        # the documented answer to a full queue
+        return op
+
     return {
+        'engine_feedback_full_producer': ('engine', bounded_prep, feedback_full('producer')),
+        'engine_feedback_full_forwarder': ('engine', bounded_prep, feedback_full('forwarder')),
         'engine_start':     ('engine', lambda s: s.feed(1), engine_start),
         'engine_complete':  ('engine', lambda s: (s.feed(1), s.engine.update(), s.feed(2), s.engine.update(), s.feed(3)),
                              engine_complete),
